@@ -86,6 +86,20 @@ func authProfile() chain.Profile {
 	return p
 }
 
+// sidauthProfile: the auth profile with data models owned by sid DIDs: requests are signed with the key of one of the
+// DID's documents (the latest or an older version), documents are added by key rotation, accounts come and go, and the
+// adversarial pool also signs with other DIDs' documents under a header that names the owner.
+func sidauthProfile() chain.Profile {
+	p := authProfile()
+	p.Name = "sidauth"
+	p.PayAcc = map[string]string{"d1": "a07", "d2": "a08", "s1": "a09", "s2": "a10"}
+	p.Sids = map[string]string{"s1": "a09", "s2": "a10"}
+	p.Weights = map[string]int{"Blocks": 12, "StoreNew": 10, "StoreUpdate": 14, "Complete": 24, "Cancel": 3, "Terminate": 6,
+		"Renew": 6, "Claim": 2, "Permission": 12, "StoreForeign": 6, "StoreSponsored": 4, "SidBind": 5, "SidRotate": 5}
+	p.Adversarial = 40
+	return p
+}
+
 // rewardProfile: block rewards are minted (see cfgFor); capacity is added, removed and claimed
 // on varying schedules, a provider joins late.
 func rewardProfile() chain.Profile {
@@ -159,11 +173,12 @@ func poorProfile() chain.Profile {
 	p.Nodes = []string{"a01", "a02", "a03"}
 	p.PayAcc = map[string]string{"d1": "a07"}
 	p.RenewMulti = 60
+	p.RenewLonger = 50
 	p.MaxData = 3
-	p.Weights = map[string]int{"Blocks": 16, "StoreNew": 8, "Complete": 30, "Renew": 16, "Migrate": 8, "Claim": 6, "Terminate": 3,
+	p.Weights = map[string]int{"Blocks": 16, "StoreNew": 8, "Complete": 30, "Renew": 16, "Migrate": 8, "Claim": 4, "Terminate": 3,
 		"Drain": 4, "Refill": 2, "StoreUpdate": 3}
 	p.Sizes = []int64{10000}
-	p.Durs = []int64{3600, 3600, 7200, 20000}
+	p.Durs = []int64{3600, 3600, 7200, 20000, 50000} // size x replica x duration stays below 2^31 (TLC integers)
 	p.Timeouts = []int64{20, 1800}
 	p.Replicas = []int64{1, 2}
 	return p
@@ -194,7 +209,7 @@ func superProfile() chain.Profile {
 	p.Nodes = []string{"a01", "a02", "a03"}
 	p.Gateways = []string{"a01", "a02", "a03"}
 	p.Weights = map[string]int{"Blocks": 14, "Delegate": 26, "Undelegate": 16, "Redelegate": 8, "ResetSuper": 10, "AddVstorage": 8, "RemoveVstorage": 8,
-		"StoreNew": 6, "Complete": 8, "Claim": 2}
+		"StoreNew": 6, "Complete": 8, "Claim": 2, "SuperCycle": 14}
 	p.Caps = []int64{1000000, 2000000, 3000000}
 	p.Sizes = []int64{1000}
 	p.Durs = []int64{3600}
@@ -213,6 +228,8 @@ func profileByName(n string) chain.Profile {
 		return lifeProfile()
 	case "auth":
 		return authProfile()
+	case "sidauth":
+		return sidauthProfile()
 	case "reward":
 		return rewardProfile()
 	case "scarce":
